@@ -15,7 +15,9 @@ ENUMS = [{'a': 1, 'b': 2}, {'off': 0, 'on': 1}, {'x': -3, 'y': 100, 'z': 7}, {'s
          # labels that look like numbers (gain / range selectors) and are the code of ANOTHER member
          {'1': 0, '2': 1, '4': 2, '8': 3}, {'10': 1, '1': 10, 'x': 2},
          # labels that are words of other notations (JSON, python)
-         {'true': 1, 'false': 0, 'null': 2}, {'None': 0, 'nan': 1, 'inf': 2}]
+         {'true': 1, 'false': 0, 'null': 2}, {'None': 0, 'nan': 1, 'inf': 2},
+         # labels that are argument names of constructors ('self' is the label frappy.mixins.HasControlledBy uses)
+         {'self': 0, 'other': 1}, {'members': 1, 'enum_or_name': 3}, {'unit': 1, 'default': 2}]
 WORDS = ['true', 'false', 'null', 'it is true', 'null ', 'None', 'True', 'nan', 'inf', '-inf', '1e5', "b'x'"]
 UNITS = ['', 'K', 'mbar/s', '$', '$/min', 'µm', 'm2', 'cm-1', '1/s', 'W/m2', 'e.']      # also units that end like a number
 ASCII_ALPHA = 'ab"\\\n\t xyz\'[](),{}:0159-.#'
@@ -307,7 +309,9 @@ def complete(di, w, rng):
 HOSTILE = [None, True, False, 0, 1, -1, 3, 2.5, float('inf'), float('-inf'), float('nan'), 10 ** 30, 10 ** 400,
            '', '5', '1.5', 'abc', '!!!!', 'YW Jj', 'YWJj\n', 'YWJ', '=', [], [1], [1, 2, 3], [[1, 2]], [['a', 1]],
            [None], {}, {'a': 1}, {'zz': 1}, {'a': None}, 'a\0b', 'ä', 1.0, 0.0, 0.9999999, -0.0, 1e-320, 'a',
-           'true', 'on', [True], [[]], {'a': {}}, 2 ** 53 + 1, -2 ** 63, 1.5e308 * 1]
+           'true', 'on', [True], [[]], {'a': {}}, 2 ** 53 + 1, -2 ** 63, 1.5e308 * 1,
+           # big ones (error messages show the offending value, possibly shortened)
+           {f'k{i}': i for i in range(50)}, list(range(60)), 'x' * 150, [[0] * 45], {'a': list(range(50))}]
 
 
 def numeric_boundaries(di, rng):
